@@ -81,7 +81,14 @@ def table():
                     setup=[{"op": "close", "on": "Q"}]))
     rows.append(row("Queue.close with buffered item", {"op": "close", "on": "Q"}, queue,
                     setup=[{"op": "put", "on": "Q", "v": 1}]))
+    rows.append(row("Queue iteration over closed empty queue", {"op": "iter", "on": "Q"}, queue,
+                    setup=[{"op": "close", "on": "Q"}], between=("iter+", "iter-")))
+    rows.append(row("Queue iteration drains closed queue", {"op": "iter", "on": "Q"}, queue,
+                    setup=[{"op": "put", "on": "Q", "v": 1}, {"op": "close", "on": "Q"}],
+                    between=("iter.next", "iter-")))
     channel = {"C": {"kind": "channel"}}
+    rows.append(row("Channel iteration over closed channel", {"op": "iter", "on": "C"}, channel,
+                    setup=[{"op": "close", "on": "C"}], between=("iter+", "iter-")))
     rows.append(row("Channel.put", {"op": "put", "on": "C", "v": 1}, channel))
     rows.append(row("Channel.close", {"op": "close", "on": "C"}, channel))
     rows.append(row("Channel.close again", {"op": "close", "on": "C"}, channel,
